@@ -9,6 +9,7 @@ import (
 	"github.com/orda-io/orda/client/pkg/types"
 	"github.com/orda-io/orda/client/pkg/utils"
 	"reflect"
+	"sort"
 	"strconv"
 	"strings"
 )
@@ -417,8 +418,15 @@ func (its *jsonPrimitive) createJSONObject(parent jsonType, value interface{}, t
 
 	if target.Kind() == reflect.Map {
 		mapValue := value.(map[string]interface{})
-		for k, v := range mapValue {
-			val := reflect.ValueOf(v)
+		// The children take their timestamps from ts in the order they are created, and later operations name them
+		// by these timestamps: every replica has to create them in the same order, which Go's map iteration is not.
+		keys := make([]string, 0, len(mapValue))
+		for k := range mapValue {
+			keys = append(keys, k)
+		}
+		sort.Strings(keys)
+		for _, k := range keys {
+			val := reflect.ValueOf(mapValue[k])
 			its.addValueToJSONObject(jo, k, val, ts)
 		}
 	} else { // reflect.Struct
